@@ -153,6 +153,7 @@ type vHist struct {
 	stats   map[string]int
 	lastSnap string
 	known    []vKnown
+	pwsWritten [][]byte
 }
 
 func vNewHist(root string, ps []vParam, def uint) (*vHist, error) {
@@ -308,6 +309,7 @@ func (h *vHist) readBack(u string, pw []byte) (ts int64, salt []byte) {
 			h.addKdf(p, salt, pw)
 		}
 		h.salts = append(h.salts, salt)
+		h.pwsWritten = append(h.pwsWritten, pw)
 		return ts, salt
 	}
 	return 0, nil
@@ -545,7 +547,7 @@ func (h *vHist) plant(user string, admin bool, p vParam, ts int64, salt, pw []by
 		ext = ".admin"
 	}
 	if err := os.WriteFile(filepath.Join(h.base, user+ext), content, 0600); err != nil {
-		panic(err)
+		return // e.g. a directory of that name is in the way (generated invalid stores)
 	}
 	h.addKdf(p, salt, pw)
 	h.known = append(h.known, vKnown{user, pw, admin, ts, p.ID})
